@@ -91,6 +91,10 @@ import (
 	"go.minekube.com/gate/pkg/util/uuid"
 )
 
+// flushPatience: how long the fake client looks at a login that does not go on before it
+// flushes it (stimulus only, see loop).
+const flushPatience = 3 * time.Second
+
 const (
 	firstLoginPluginProtocol = 393 // 1.13
 	firstConfigProtocol      = 764 // 1.20.2
@@ -633,6 +637,24 @@ func (x *eRun) loop(until func() bool) bool {
 			progress()
 			continue
 		}
+		if x.mayFlush && !success && len(vis) == 0 && time.Since(last) > flushPatience &&
+			x.s.freeDone.Load() && x.allAcceptedAnswered() {
+			// Everything the client was asked has been answered and still the login does not
+			// go on. How long the client waited decides nothing; what decides is ORDER: a second
+			// login start is a packet the proxy refuses by closing the connection, and it
+			// handles the client's packets one after the other - so when the stream ends, every
+			// response written before has been handled (and a completion they caused has run,
+			// the step being synchronous in that handling).
+			x.flushAt = e2e.Now()
+			_ = x.c.LoginStart("flush")
+			if x.c.WaitEOF(e2e.Watchdog) {
+				x.flushed = true
+				x.ended = "the login did not go on after every message was answered; a second login start ended the connection (flush)"
+			} else {
+				x.ended = "the login did not go on after every message was answered, and a second login start did not end the connection within the watchdog"
+			}
+			return false
+		}
 		if time.Since(last) > e2e.Watchdog {
 			x.ended = "login phase made no progress within the watchdog"
 			return false
@@ -758,7 +780,8 @@ func (x *eRun) run() {
 		return
 	}
 
-	// plain / too-old
+	// plain / online / too-old
+	x.mayFlush = true
 	ok := x.loop(func() bool {
 		if !x.successSeen {
 			return false
@@ -964,10 +987,13 @@ func judgeE2E(x *eRun) (vs []eViol, st map[string]int) {
 			}
 		}
 	}
-	if x.joined {
+	if x.joined || x.flushed {
 		for mi, fr := range firstResp {
 			if s.msgs[mi].Class != "forge" && len(consOf[mi]) == 0 {
-				add("response-not-delivered", "the client's first response to id %d (m%d, %s) never reached the consumer although the login phase is over", fr.ID, mi, s.msgs[mi].Class)
+				if x.flushed && fr.At > x.flushAt {
+					continue
+				}
+				add("response-not-delivered", "the client's first response to id %d (m%d, %s) never reached the consumer although everything the client wrote has been handled", fr.ID, mi, s.msgs[mi].Class)
 			}
 		}
 	}
@@ -1070,6 +1096,16 @@ func judgeE2E(x *eRun) (vs []eViol, st map[string]int) {
 			default:
 				add("completion-ran-more-than-once", "the login-completion step ran %d times (%s)", len(compl), complName)
 			}
+		}
+	} else if x.flushed {
+		all := true
+		for _, m := range s.msgs {
+			if m.Class != "forge" && m.Err == "" && len(consOf[m.Idx]) == 0 {
+				all = false
+			}
+		}
+		if all && s.preRet != 0 {
+			add("completion-never-ran", "the PreLogin handler returned, the consumer of every message ran, every packet of the client has been handled - and the login-completion step never ran")
 		}
 	} else if nSucc > 0 {
 		add("login-success-without-completion-event", "the client got a login success but the completion (%s) was never observed", complName)
@@ -1285,6 +1321,9 @@ func runE2E(r *lib.Run) {
 				perMode[sp.Mode]++
 				if x.joined {
 					agg["sessions_that_reached_JoinGame"]++
+				}
+				if x.flushed {
+					agg["stalled_sessions_flushed_with_a_second_login_start"]++
 				}
 				mu.Unlock()
 				if st["messages_accepted"]+st["forge_backend_requests"]+st["sends_refused"] > 0 {
